@@ -302,6 +302,11 @@ func (conn *Conn) recv() {
 		conn.shutdown = true
 		for seq, call := range conn.pending {
 			delete(conn.pending, seq)
+			if call.stream != nil && call.upgrade.Stream == streaming {
+				// An acknowledged stream: NewStream has been signalled and
+				// reads the call's Error; the stream is stopped below.
+				continue
+			}
 			call.Error = err
 			call.done()
 		}
